@@ -124,6 +124,7 @@ pub fn profile(check: &str) -> Profile {
             nontrivial_any: vec!["auto_commit", "store_beyond_refused", "purge"],
             required: vec!["auto_commit", "store_beyond_refused", "restart_shutdown"],
             poll_kinds: [2, 1, 1, 16, 0],
+            cfg: sizes_cfg, // encryption on in a third of the histories: the poll path (and with it auto-commit) differs when payloads are decrypted
             ..default
         },
         "C18" => Profile {
@@ -500,6 +501,11 @@ fn owned(prof: &Profile, v: &Violation, w: &World) -> bool {
     // once a consumer group was deleted in the history, offsets that survive it, reappear in a group created under the same id,
     // or vanish from another identity count for C06 too
     if prof.owner == "C06" && !w.cfg.no_wait && w.ev.contains_key("group_deleted") && key.starts_with("C07:get-equals-last-stored") {
+        return true;
+    }
+    // C14: "after deletion the partition's current offset is unchanged, new messages continue at the next offset - also after a restart":
+    // once a maintenance pass has deleted messages, the offset-assignment clauses count for it as well (its profile is wait mode only)
+    if prof.owner == "C14" && !w.cfg.no_wait && w.ev.contains_key("retention_deleted_messages") && key.starts_with("C01:") {
         return true;
     }
     // C18: a dropped duplicate is "dropped without consuming an offset": with deduplication on, offset-assignment clauses count for it
